@@ -2,6 +2,7 @@
 //! Everything here is generic; the check binaries choose the instantiations.
 pub mod backends;
 pub mod elem;
+pub mod maps;
 pub mod probe;
 pub mod roll;
 
